@@ -128,4 +128,9 @@ def designed(rng):
                 ['G20', 'G1 Z1 F10', 'G1 X0.6 Y0.6', 'G21', 'G1 X40 Y40'], ['M206 Z1', 'G1 Z1', 'G1 X30 Y30']):
         lines = ['G28', 'G1 Z1 F600', 'G1 X5 Y5', 'G1 X15 Y15 E1'] + mid + ['G1 X31 Y31 E2']
         out.append(dict(g90e=False, enter=None, exit=None, ext=dict(genprog.DEFAULT_EXT), regions=R, events=[('cmd', l) for l in lines], style='none', alen='1'))
+    # retractions the filter drops (filament already retracted): firmware retraction twice in a row, and again while a recovery is owed
+    for lines in (['G28', 'G1 X5 Y5 F3000', 'G10', 'G10', 'G11', 'G11', 'G1 X6 Y5 E1'],
+                  ['G28', 'G1 X5 Y5 E1 F3000', 'G10', 'G1 X15 Y15', 'G11', 'G1 X30 Y30', 'G10', 'G10 S1', 'G1 X40 Y40', 'G11', 'G1 X41 Y40 E2'],
+                  ['G28', 'G1 X5 Y5 E1 F3000', 'G1 E0', 'G1 E-1', 'G1 X15 Y15', 'G1 E1', 'G1 X30 Y30', 'G1 E0', 'G1 E0', 'G1 E1', 'G1 X31 Y30 E2']):
+        out.append(dict(g90e=False, enter=None, exit=None, ext=dict(genprog.DEFAULT_EXT), regions=R, events=[('cmd', l) for l in lines], style='none', alen='1'))
     return out + C14.designed(rng, 6)
